@@ -63,7 +63,11 @@ def observe(g, deep=True):
             conn.append((gen_dsg.label(n), _safe(lambda: tuple(sorted(
                 tuple(sorted((gen_dsg.label(a), gen_dsg.label(b)) for a, b in edges)) for edges in n.iter_conn_edges(g))))))
     o['conn_sets'] = tuple(conn)
-    o['constraints'] = tuple((cc.type.name, tuple(gen_dsg.label(n) for n in cc.nodes)) for cc in g.get_choice_constraints())
+    o['constraints'] = tuple((cc.type.name, tuple(gen_dsg.label(n) for n in cc.nodes),
+                              None if cc.options is None else tuple(
+                                  tuple(gen_dsg.label(v) if hasattr(v, 'str_context') else repr(v) for v in opts)
+                                  for opts in cc.options))
+                             for cc in g.get_choice_constraints())
     o['des_var_nodes'] = tuple(gen_dsg.label(n) for n in g.des_var_nodes)
     o['des_var_values'] = tuple(sorted((gen_dsg.label(n), repr(v)) for n, v in g.des_var_values.items()))
     o['metric_values'] = tuple(sorted((gen_dsg.label(n), repr(v)) for n, v in g.metric_values.items()))
@@ -229,9 +233,20 @@ def _run(trace, log, stats, cur):
             ctype = [ChoiceConstraintType.LINKED, ChoiceConstraintType.LINKED, ChoiceConstraintType.PERMUTATION,
                      ChoiceConstraintType.UNORDERED, ChoiceConstraintType.UNORDERED_NOREPL][op[3] % 5]
             if ctype is ChoiceConstraintType.LINKED:
-                if not pairs:
+                # every other time: two selection choices with *different* option counts (the longer one then has
+                # options without a partner in the shorter one)
+                uneq = [[a, b] for i_, a in enumerate(sels) for b in sels[i_ + 1:]
+                        if len(cp.get_option_nodes(a)) != len(cp.get_option_nodes(b))
+                        and min(len(cp.get_option_nodes(a)), len(cp.get_option_nodes(b))) >= 2]
+                if uneq and (op[2] // 8) % 2 == 1:
+                    group = uneq[op[2] % len(uneq)]
+                    if (op[2] // 16) % 2:
+                        group = group[::-1]
+                    stats['probe:linked_unequal_counts'] += 1
+                elif pairs:
+                    group = pairs[op[2] % len(pairs)]
+                else:
                     continue
-                group = pairs[op[2] % len(pairs)]
                 remove = False
             else:
                 # index constraints over 2-3 free selection choices with any option counts - possibly unsatisfiable
